@@ -397,7 +397,7 @@ def coq_program(name, xj):
 # ------------------------------------------------------------------------------------------------
 # stage: Coq obligations
 
-CASE_HEADER = '''From BB Require Import Bits Expr Sym Spec Validate Enum Prog History Builder Surface.
+CASE_HEADER = '''From BB Require Import Bits Expr Sym Spec Validate Enum Prog History Builder Surface Gen.
 Open Scope N_scope.
 Open Scope string_scope.
 Set Printing Width 100000.
@@ -422,8 +422,10 @@ def stage_obligations(ws, ds, verdicts, xl):
         sh = shards[k]
         src = [CASE_HEADER]
         entries = []
+        synt = []
         for d in sh:
             if d['kind'] == 'bitfield':
+                synt.append('(%s, syntactic_match d_%s p_%s)' % (translate.cstr(d['name']), d['name'], d['name']))
                 src.append('Definition d_%s : decl :=\n  %s.' % (d['name'], decls.coq_decl(d)))
                 src.append('Definition p_%s : program :=\n  %s.' % (d['name'], coq_program(d['name'], xl[d['name']])))
                 src.append('Definition x_%s : extras :=\n  %s.' % (d['name'], translate.coq_extras(d['name'], xl[d['name']])))
@@ -435,6 +437,8 @@ def stage_obligations(ws, ds, verdicts, xl):
         src.append('Definition all_obligations : list (string * list (string * bool)) := [\n  %s].' % ';\n  '.join(entries))
         src.append('Definition report := Eval vm_compute in all_obligations.')
         src.append('Print report.')
+        src.append('Definition syntactic : list (string * list (string * bool)) := Eval vm_compute in [\n  %s].' % ';\n  '.join(synt))
+        src.append('Print syntactic.')
         src.append('Theorem run_ok : forallb (fun r => forallb snd (snd r)) all_obligations = true.')
         src.append('Proof. vm_compute. reflexivity. Qed.')
         fn = os.path.join(cdir, 'cases_%d.v' % k)
@@ -444,10 +448,13 @@ def stage_obligations(ws, ds, verdicts, xl):
 
     res = {}
     kernel_ok = {}
+    syn = {}
     with ThreadPoolExecutor(max_workers=16) as ex:
         for k, rc, out, err in ex.map(do_shard, range(len(shards))):
             open(os.path.join(cdir, 'cases_%d.out' % k), 'w').write(out + '\n---- stderr\n' + err)
             parsed = parse_report(out)
+            for name, obs in (parse_report(out, 'syntactic') or []):
+                syn[name] = obs
             if parsed is None:
                 raise RuntimeError('cannot parse coqc output of shard %d:\n%s\n%s' % (k, out[-2000:], err[-3000:]))
             for name, obs in parsed:
@@ -455,11 +462,14 @@ def stage_obligations(ws, ds, verdicts, xl):
                 kernel_ok[name] = (rc == 0)
             if rc != 0 and all(ok for _, obs in parsed for _, ok in obs):
                 raise RuntimeError('coqc failed on shard %d although no obligation fails:\n%s' % (k, err[-3000:]))
-    out = {'obligations': res, 'kernel_ok': kernel_ok, 'wall_s': time.time() - t0, 'shards': len(shards)}
+    nsyn = sum(len(v) for v in syn.values())
+    out = {'obligations': res, 'kernel_ok': kernel_ok, 'wall_s': time.time() - t0, 'shards': len(shards),
+           'syntactic_match': {'bodies': nsyn, 'identical_to_model': sum(1 for v in syn.values() for _, ok in v if ok),
+                               'differing': [[n, l] for n, v in syn.items() for l, ok in v if not ok][:20]}}
     ws.mark('obligations', out)
-    log('obligations: %d programs, %d obligations, %d failing, %.1fs' % (
+    log('obligations: %d programs, %d obligations, %d failing, %.1fs; generator model: %d of %d bodies syntactically identical' % (
         len(res), sum(len(v) for v in res.values()), sum(1 for v in res.values() for _, ok in v if not ok),
-        out['wall_s']))
+        out['wall_s'], out['syntactic_match']['identical_to_model'], nsyn))
     return out
 
 
@@ -496,8 +506,8 @@ def stage_decisions(ws, ds):
     return out
 
 
-def parse_report(out):
-    m = re.search(r'report\s*=\s*(\[.*?\])\s*:\s*list', out, re.S)
+def parse_report(out, what='report'):
+    m = re.search(what + r'\s*=\s*(\[.*?\])\s*:\s*list', out, re.S)
     if not m:
         return None
     txt = m.group(1)
